@@ -5,9 +5,9 @@ CONSTANTS
   Kinds = {"long"}
   Forms = {"exact"}
   Vias = {"validate"}
-  AdminOps = {"blacklist", "delete", "flush"}
+  AdminOps = {"blacklist", "delete"}
   MaxStarts = 3
-  MaxAdmin = 2
+  MaxAdmin = 3
   MaxCacheOps = 0
   MaxTick = 0
   Impl = "fixed"
